@@ -304,6 +304,8 @@ func runC03(c *Ctx) {
 		c.Floor("C03.multi/paths", nM, 2)
 	}
 	multiComplete(c, a, "C03.multi-complete")
+	c.Borrow("C09", map[string]string{"C09.prune-guard": "C03.delete-prune", "C09.select": "C03.delete-select", "C09.conditional": "C03.delete-conditional"}, "a conditional delete must unlink exactly the leaves it hands to the callback that announces them; a subtree pruned while it still holds leaves disappears from queries without a feed entry")
+	gnmiDispatch(c, a, "C03.dispatch")
 	equalArms(c, "C03.equal-sound", false)
 	resetRemoveAnnounce(c, "C03.reset-announce")
 }
@@ -712,4 +714,91 @@ func firstPos(b *ssa.BasicBlock) token.Pos {
 		}
 	}
 	return b.Parent().Pos()
+}
+
+// gnmiDispatch: Target.GnmiUpdate hands every update and every delete of a notification to
+// gnmiUpdate / gnmiRemove, whatever the mix (shared by C01, C02, C03).  Decision table over
+// (number of updates, number of deletes) in {0,1,2}x{0,1,2} for non-atomic notifications, with the
+// range loops folded by their known lengths: on every returning path the number of gnmiUpdate
+// calls equals the number of updates and the number of gnmiRemove calls the number of deletes.
+func gnmiDispatch(c *Ctx, a *cacheAnchors, rule string) {
+	P := c.P
+	GU := a.GnmiUpdate
+	c.Rule(rule, "Target.GnmiUpdate, non-atomic notification with u updates and d deletes, (u,d) in {0,1,2}x{0,1,2}: every returning path calls gnmiUpdate exactly u times and gnmiRemove exactly d times (range loops folded by the known lengths); atomic with u >= 1 updates and no delete: exactly one gnmiUpdate call with the caller's notification")
+	nP := ssa.Value(GU.Params[1])
+	fUpd := P.Field("proto/gnmi", "Notification", "Update")
+	fDel := P.Field("proto/gnmi", "Notification", "Delete")
+	fAt := P.Field("proto/gnmi", "Notification", "Atomic")
+	if fUpd == nil || fDel == nil || fAt == nil {
+		c.Unresolved(rule, "proto/gnmi.Notification.Update / Delete / Atomic")
+		return
+	}
+	isGU := lbl("call:" + fnName(a.gnmiUpdate))
+	isGR := lbl("call:" + fnName(a.gnmiRemove))
+	cls := func(e *PPA, st *State, rv RV) string {
+		r := e.Resolve(st, rv)
+		switch v := r.V.(type) {
+		case *ssa.Call:
+			if la, ok := lenArg(v); ok {
+				x := e.Resolve(st, RV{r.F, la})
+				switch {
+				case isCallNamed(x.V, "(*proto/gnmi.Notification).GetUpdate") && e.Resolve(st, RV{x.F, x.V.(*ssa.Call).Call.Args[0]}).V == nP:
+					return "NU"
+				case isCallNamed(x.V, "(*proto/gnmi.Notification).GetDelete") && e.Resolve(st, RV{x.F, x.V.(*ssa.Call).Call.Args[0]}).V == nP:
+					return "ND"
+				case loadOfField(x.V, fUpd):
+					return "NU"
+				case loadOfField(x.V, fDel):
+					return "ND"
+				}
+			}
+			if isCallNamed(v, "(*proto/gnmi.Notification).GetAtomic") {
+				return "AT"
+			}
+		case *ssa.UnOp:
+			if loadOfField(v, fAt) {
+				return "AT"
+			}
+		}
+		return ""
+	}
+	c.Analysed(fnName(GU))
+	for _, atomic := range []bool{false, true} {
+		for nu := int64(0); nu <= 2; nu++ {
+			for nd := int64(0); nd <= 2; nd++ {
+				if atomic && (nd > 0 || nu == 0) {
+					continue
+				}
+				at := &Atoms{Class: cls, Bool: map[string]bool{"AT": atomic}, Int: map[string]int64{"NU": nu, "ND": nd}}
+				e := &PPA{Cond: at.Cond, MaxVisits: 4, Watch: func(ev *Ev) bool { return isGU(ev) || isGR(ev) }}
+				e.deepApplied = true // the loops are folded exactly; deeper unrolling adds nothing
+				e.Run(GU)
+				c.Paths += len(e.Paths)
+				c.Scen++
+				n := 0
+				for i := range e.Paths {
+					p := &e.Paths[i]
+					if p.End != "return" {
+						continue
+					}
+					n++
+					gu, gr := int64(p.Count(isGU)), int64(p.Count(isGR))
+					wantU := nu
+					if atomic {
+						wantU = 1
+					}
+					ok := gu == wantU && gr == nd
+					if ok && atomic {
+						gi := p.Index(0, isGU)
+						ok = p.Trace[gi].Args[1].V == nP
+					}
+					c.Check(ok, rule, fnName(GU), fmt.Sprintf("atomic=%v, %d updates, %d deletes", atomic, nu, nd), P.Pos(GU.Pos()), fmt.Sprintf("%d gnmiUpdate and %d gnmiRemove calls; path: %s", gu, gr, p.String()))
+				}
+				c.Floor(fmt.Sprintf("%s/paths(atomic=%v,u=%d,d=%d)", rule, atomic, nu, nd), n, 1)
+				if e.Truncated > 0 && n == 0 {
+					c.Unknown(rule, fnName(GU), fmt.Sprintf("atomic=%v, %d updates, %d deletes", atomic, nu, nd), P.Pos(GU.Pos()), "all paths truncated")
+				}
+			}
+		}
+	}
 }
